@@ -124,6 +124,23 @@ impl Scenario for Batch {
                 }
             }
         }
+        // channels from the automatic allocation (ids 1 and 2): the client's close of the newest
+        // channel crosses the server's, and another channel is asked for in the same wake-up -
+        // the stale CloseOk for the crossing close must not meet the new channel
+        {
+            let items: Vec<String> = ["A2:chclose", "SCh2", "K:allocnone"].iter().map(|x| x.to_string()).collect();
+            for order in permutations(&items) {
+                for mode in ["one", "separate"] {
+                    // (one by one, a server cannot close a channel whose close it has already confirmed)
+                    let a = order.iter().position(|e| e == "A2:chclose");
+                    let b = order.iter().position(|e| e == "SCh2");
+                    if mode == "separate" && a < b {
+                        continue;
+                    }
+                    v.push(json!({"events": order, "mode": mode, "stall": false, "auto": true}));
+                }
+            }
+        }
         v
     }
     fn bound(&self, _tier: &str, _p: &Value) -> usize {
@@ -144,6 +161,7 @@ impl Scenario for Batch {
         let stall = p["stall"] == true;
         let precall = p["precall"] == true;
         let qbound = p["bound"].as_u64().unwrap_or(16) as usize;
+        let auto = p["auto"] == true;
         let prepub = p["prepub"] == true;
         let high = p["high"].as_u64().map(|h| h as usize);
         if prepub {
@@ -177,8 +195,8 @@ impl Scenario for Batch {
                         return;
                     }
                 };
-                let ch1 = conn.open_channel(Some(1)).expect("ch1");
-                let ch2 = conn.open_channel(Some(2)).expect("ch2");
+                let (ch1, ch2) = if auto { (conn.open_channel(None).expect("ch1"), conn.open_channel(None).expect("ch2")) } else { (conn.open_channel(Some(1)).expect("ch1"), conn.open_channel(Some(2)).expect("ch2")) };
+                assert_eq!((ch1.channel_id(), ch2.channel_id()), (1, 2));
                 let (go_k_tx, go_k) = crossbeam_channel::bounded::<String>(1);
                 let (go_a1_tx, go_a1) = crossbeam_channel::bounded::<String>(2);
                 let (go_a2_tx, go_a2) = crossbeam_channel::bounded::<String>(1);
@@ -190,8 +208,8 @@ impl Scenario for Batch {
                     let op = ctx.recv("go", &go_k).unwrap_or_default();
                     let mut closed = false;
                     match op.as_str() {
-                        "K:alloc" => {
-                            let r = conn.open_channel(Some(7));
+                        "K:alloc" | "K:allocnone" => {
+                            let r = if op == "K:allocnone" { conn.open_channel(None) } else { conn.open_channel(Some(7)) };
                             ctx.log(format!("open_channel -> {}", res(&r)));
                             if let Ok(c) = r {
                                 let r = c.close();
@@ -257,11 +275,18 @@ impl Scenario for Batch {
                         let r = ch2.queue_purge("q");
                         ctx.log(format!("call -> {:?}", r.map_err(|e| err_name(&e))));
                     }
-                    let _ = ctx.recv("finish", &go_a2);
-                    let r = ch2.qos(0, 1, false);
-                    ctx.log(format!("late -> {}", res(&r)));
-                    let r = ch2.close();
-                    ctx.log(format!("chclose -> {}", res(&r)));
+                    if op == "A2:chclose" {
+                        // the client closes channel 2 itself (with SCh2 in the batch the closes cross)
+                        let r = ch2.close();
+                        ctx.log(format!("chclose -> {}", res(&r)));
+                        let _ = ctx.recv("finish", &go_a2);
+                    } else {
+                        let _ = ctx.recv("finish", &go_a2);
+                        let r = ch2.qos(0, 1, false);
+                        ctx.log(format!("late -> {}", res(&r)));
+                        let r = ch2.close();
+                        ctx.log(format!("chclose -> {}", res(&r)));
+                    }
                     if let Some(rx) = &cons_rx {
                         ctx.log(format!("consumer saw {:?}", rx.try_iter().map(|m| consumer_msg_name(&m)).collect::<Vec<_>>()));
                     }
@@ -303,8 +328,8 @@ impl Scenario for Batch {
                             let _ = go_a1_tx.send(e.to_string());
                             ctx.wait_blocked(a1);
                         }
-                        "A2" => {
-                            let _ = go_a2_tx.send("A2".to_string());
+                        "A2" | "A2:chclose" => {
+                            let _ = go_a2_tx.send(ev.to_string());
                             ctx.wait_blocked(a2);
                         }
                         _ => {}
